@@ -24,6 +24,10 @@ ALL_DEVS = ["SelfImportDoubling", "ImportLadder", "EmptyMacroEmbed", "MacroClose
 MCLOSES_ALL = (3, 300, 2000)
 SNIPDEEPS_ALL = (100, 200, 254)
 CHAINS_ALL = ((1, 50), (1, 200), (2, 127), (3, 150), (4, 150), (1, 255), (7, 40))
+# boundary of the nesting limit reached through an import: 100 blocks around the import, 155 / 156 / 157 blocks
+# in the imported snippet or file (total limit-1, limit, limit+1), innermost block non-empty (0) / empty (1)
+SPLITS_ALL = tuple((100, i, e) for i in (155, 156, 157) for e in (0, 1)) + ((1, 255, 1), (1, 256, 1), (200, 57, 1))
+SPLITS_QUICK = tuple((100, i, e) for i in (156, 157) for e in (0, 1))
 DEPTHS_ALL = (1, 2, 3, 255, 256, 257, 300)
 LADDERS_ALL = (3, 10, 24)
 
@@ -38,6 +42,8 @@ CONSTANTS
   MacroCloses = %(mcloses)s
   SnipDeeps = %(snipdeeps)s
   FileChains = %(chains)s
+  SnipSplits = %(snipsplits)s
+  FileSplits = %(filesplits)s
   Devs = %(devs)s
 %(tail)s
 CHECK_DEADLOCK FALSE
@@ -62,14 +68,20 @@ def tla_set(xs):
     return "{" + ", ".join(one(x) for x in xs) + "}"
 
 
+def split_code(outer, inner, empty):
+    return 1000000 * empty + 1000 * outer + inner
+
+
 def cfg(spec="SpecDoc", maxitems=0, styles=STYLE_PLAIN, mutlen=0, rawlen=0, depths=(3,), ladders=(3,),
-        devs=(), inv="EmitRows", post=None, mcloses=(), snipdeeps=(), chains=()):
+        devs=(), inv="EmitRows", post=None, mcloses=(), snipdeeps=(), chains=(), snipsplits=(), filesplits=()):
     tail = ("INVARIANTS " + inv) if inv else ""
     if post:
         tail += "\nPOSTCONDITION " + post
     return CFG % dict(spec=spec, maxitems=maxitems, styles=tla_set(styles), mutlen=mutlen, rawlen=rawlen,
                       depths=tla_set(list(depths)), ladders=tla_set(list(ladders)), devs=tla_set(list(devs)), tail=tail,
-                      mcloses=tla_set(list(mcloses)), snipdeeps=tla_set(list(snipdeeps)), chains=tla_set([1000 * k + d for k, d in chains]))
+                      mcloses=tla_set(list(mcloses)), snipdeeps=tla_set(list(snipdeeps)), chains=tla_set([1000 * k + d for k, d in chains]),
+                      snipsplits=tla_set([split_code(*x) for x in snipsplits]),
+                      filesplits=tla_set([split_code(*x) for x in filesplits]))
 
 
 def rows_of(r):
@@ -202,12 +214,14 @@ def run(ctx, replay):
         mcloses = MCLOSES_ALL if thorough else (300,)
         snipdeeps = SNIPDEEPS_ALL if thorough else (200,)
         chains = CHAINS_ALL if thorough else ((1, 50), (1, 200), (4, 150))
+        splits = SPLITS_ALL if thorough else SPLITS_QUICK
         rawlen = 4 if thorough else 3
         jobs = {
             # every document of <= 2 gadgets x styles; the documented rule must satisfy the property
             "doc": dict(workers=4, timeout=1500,
                         cfg_text=cfg(maxitems=2, styles=styles, depths=depths, ladders=ladders, inv="RowAndModel",
-                                     mcloses=mcloses, snipdeeps=snipdeeps, chains=chains)),
+                                     mcloses=mcloses, snipdeeps=snipdeeps, chains=chains,
+                                     snipsplits=splits, filesplits=splits)),
             # as-is: with the deviations switched on the rule itself violates the property
             "asis": dict(workers=2, timeout=600,
                          cfg_text=cfg(maxitems=2, styles=STYLE_PLAIN, devs=ALL_DEVS, ladders=(3, 24), inv="ModelHolds")),
@@ -300,7 +314,8 @@ def run(ctx, replay):
             selftest = {9000001: "viol", 9000002: "drift"}
 
     tcfg = cfg(spec="TSpec", maxitems=0, depths=DEPTHS_ALL, ladders=LADDERS_ALL, mcloses=MCLOSES_ALL,
-               snipdeeps=SNIPDEEPS_ALL, chains=CHAINS_ALL, devs=open_devs, inv=None, post="Post")
+               snipdeeps=SNIPDEEPS_ALL, chains=CHAINS_ALL, snipsplits=SPLITS_ALL, filesplits=SPLITS_ALL,
+               devs=open_devs, inv=None, post="Post")
     verdicts, by_t = validate_parallel(ctx, events, tcfg, batch=4000 if thorough else max(1000, -(-len(events) // 8)), jobs=8)
 
     ok = drift = 0
